@@ -120,7 +120,7 @@ def run(chk):
 
     # ---- (c) unique=True vs unique=False through the public API ---------------------------------
     sx, sz = oqupy.operators.sigma("x"), oqupy.operators.sigma("z")
-    for it in range(30 if (thorough or chk.disagreements or chk.broken) else 8):
+    for it in range(36 if (thorough or chk.disagreements or chk.broken) else 12):
         d = rng.choice([2, 3, 3, 4])
         o = [rng.choice([-1.0, 0.0, 0.5, 1.0, 2.0]) for _ in range(d)]
         rot = rng.random() < 0.4
@@ -138,8 +138,29 @@ def run(chk):
         dkmax = rng.choice([None, 2])
         par = oqupy.TempoParameters(dt=0.1, epsrel=eps, dkmax=dkmax, add_correlation_time=rng.choice([None, 0.2]) if dkmax else None)
         bath = oqupy.Bath(O, _corr)
-        method = rng.choice(["tempo", "pttempo", "meanfield"])
+        method = rng.choice(["tempo", "pttempo", "meanfield", "meanfield"])
+        if it < 3:
+            method = "meanfield"      # every run has several-species cases with permuted / rotated copies of one spectrum
         info = {"kind": "api", "method": method, "o": o, "rotated": rot, "dkmax": dkmax}
+        mf_baths = [bath]
+        if method == "meanfield":
+            for k in range(rng.choice([0, 1, 1, 2]) if it >= 3 else 1 + it % 2):
+                mode = rng.choice(["permuted", "permuted", "rotated", "other"]) if it >= 3 else ["permuted", "rotated", "permuted"][it]
+                ok = list(o)
+                if mode == "other":
+                    ok = [rng.choice([-1.0, 0.0, 0.5, 1.0, 2.0]) for _ in range(d)]
+                else:
+                    rng.shuffle(ok)
+                    if ok == list(o) and len(set(o)) > 1:
+                        ok = ok[1:] + ok[:1] if ok[1:] + ok[:1] != list(o) else ok[::-1]
+                Ok = np.diag(ok).astype(complex)
+                if mode == "rotated":
+                    z = np.array([[rng.gauss(0, 1) + 1j * rng.gauss(0, 1) for _ in range(d)] for _ in range(d)])
+                    q, _ = np.linalg.qr(z)
+                    Ok = q @ Ok @ q.conj().T
+                    Ok = (Ok + Ok.conj().T) / 2
+                mf_baths.append(oqupy.Bath(Ok, _corr))
+            info["species"] = len(mf_baths)
         res = []
         try:
             for unique in (False, True):
@@ -149,10 +170,14 @@ def run(chk):
                     pt = quiet(oqupy.pt_tempo_compute, bath, 0.0, 0.4, parameters=par, unique=unique, progress_type="silent")
                     res.append(np.array(quiet(oqupy.compute_dynamics, oqupy.System(H), initial_state=rho0, process_tensor=pt, progress_type="silent").states))
                 else:
-                    s = oqupy.TimeDependentSystemWithField(lambda t, f: H + 0.1 * f.real * np.diag(np.arange(d)).astype(complex))
-                    mfs = oqupy.MeanFieldSystem([s], field_eom=lambda t, st, f: -0.1 * f + 0.2 * np.trace(st[0] @ H))
-                    dyn = quiet(oqupy.MeanFieldTempo(mfs, [bath], par, [rho0], 0.2 + 0j, 0.0, unique=unique).compute, 0.4, progress_type="silent")
-                    res.append(np.append(np.array(dyn.system_dynamics[0].states).reshape(-1), dyn.fields))
+                    # several species, each with its own bath: the same spectrum in a different order / basis (same number
+                    # of degeneracy classes, different class pattern) and independently drawn ones
+                    ss = [oqupy.TimeDependentSystemWithField(lambda t, f, k=k: H + 0.1 * (k + 1) * f.real * np.diag(np.arange(d)).astype(complex))
+                          for k in range(len(mf_baths))]
+                    mfs = oqupy.MeanFieldSystem(ss, field_eom=lambda t, st, f: -0.1 * f + 0.2 * sum(np.trace(x @ H) for x in st))
+                    dyn = quiet(oqupy.MeanFieldTempo(mfs, mf_baths, par, [rho0] * len(mf_baths), 0.2 + 0j, 0.0, unique=unique).compute, 0.4,
+                                progress_type="silent")
+                    res.append(np.append(np.concatenate([np.array(sd.states).reshape(-1) for sd in dyn.system_dynamics]), dyn.fields))
         except Exception as ex:
             chk.fail("unique-raises", f"{method} raises {ex!r}", info)
             continue
